@@ -1379,8 +1379,22 @@ def _c14_words():
     return out
 
 
+# further delimiters as left context (operators and punctuation that cannot fuse with an opener)
+C14_LEFT_MORE = (':', '::', '+', '*', '<', '>', '|', '||', '%', '~', '^', '?', '&', '!=', '->', '@>', '.')
+
+
 def cases_C14(tier, seed):
     quick = tier == 'quick'
+    for kind in C14_KINDS:
+        letters = _c14_letters(kind, SUB_ALPHABET)
+        for k in range(0, 3):
+            for t in itertools.product(letters, repeat=k):
+                body = ''.join(t)
+                if _c14_body_ok(kind, body):
+                    for left in C14_LEFT_MORE:
+                        yield ('region', kind, left, body, '')
+                        if k <= 1:
+                            yield ('region', kind, left, body, ' x')
     for w in _c14_words() + C14_NON_WORDS:
         for casing in C14_CASINGS:
             yield ('word', w, casing, None, None)
